@@ -148,16 +148,17 @@ def witness_packages(modname):
     }
 
 
-def run_witnesses(run, shoot, mod, wit):
+def run_witnesses(run, shoot, mod, wit, sem):
     """run shoot on every witness package; build the ones that are not called by the driver.
     returns {name: {"shoot": result, "build": (ok, errors) | None, "outputs": [texts] (wdup)}}"""
     st = {}
 
     def one(name):
-        r = l2.run_shoot(shoot, mod / name, ["rest", "-type=" + wit[name]["type"]], timeout=90)
-        res = {"shoot": r, "build": None}
-        if name in ("wfix", "wbody", "wpmap") and r["rc"] == 0:
-            res["build"] = l2.go_build(mod, ["./" + name])
+        with sem:
+            r = l2.run_shoot(shoot, mod / name, ["rest", "-type=" + wit[name]["type"]], timeout=90)
+            res = {"shoot": r, "build": None}
+            if name in ("wfix", "wbody", "wpmap") and r["rc"] == 0:
+                res["build"] = l2.go_build(mod, ["./" + name])
         return name, res
     with cf.ThreadPoolExecutor(max_workers=5) as ex:
         for name, res in ex.map(one, list(wit)):
@@ -169,7 +170,8 @@ def run_witnesses(run, shoot, mod, wit):
         d = mod / ("wdup_%d" % k)
         d.mkdir(exist_ok=True)
         shutil.copy(mod / "wdup" / "wdup.go", d / "wdup.go")
-        r = l2.run_shoot(shoot, d, ["rest", "-type=Dup"], timeout=90)
+        with sem:
+            r = l2.run_shoot(shoot, d, ["rest", "-type=Dup"], timeout=90)
         txt = "".join(p.read_text() for p in sorted(d.glob("*.shootrest*.go")))
         shutil.rmtree(d, ignore_errors=True)
         return r["rc"], txt
